@@ -1,3 +1,710 @@
-/* placeholder, replaced when the mode is implemented */
+/*
+ * m_random.c - cimx mode "random": drives the REAL samplers of cmb_random.[ch]
+ * (properties C15 and C16) and reports bit patterns; every judgement is made in
+ * Python (pbt/props/c15.py, c16.py).
+ *
+ * Case grammar (one directive per line, '#' comments):
+ *
+ *   fp masked|trap            FP environment of every sampling thread. "trap" sets
+ *                             MXCSR 0x1d00 (invalid-op and div-by-zero UNMASKED),
+ *                             exactly what cimba_run_experiment() puts on a trial
+ *                             thread and what every cimba process runs with.
+ *   aliasfp masked|trap       FP environment while alias tables are created (default masked)
+ *   budget <n>                raw 64-bit draws one sampler CALL may consume before
+ *                             it is abandoned by longjmp (needs hook 2; default 1e6)
+ *   variant <name>            ignored here (tell the Python side which build to use and
+ *   check <kind>              which oracle to apply)
+ *   vec <name> <x>...         a double array of exactly that many elements (own
+ *                             malloc block, so an index == n is an ASan report)
+ *   alias <name> <vec>        cmb_random_alias_create(len, vec)
+ *   segment <plan>            plan = main | fresh | reuse ; starts a new segment:
+ *                             the ops that follow run in the main thread / a new
+ *                             pthread / the persistent worker thread
+ *   conc-begin <rounds>       the segments up to conc-end run SIMULTANEOUSLY, each in
+ *   conc-end                  a new pthread released by a barrier; repeated <rounds> x
+ *   seed <u64>                cmb_random_initialize
+ *   terminate                 cmb_random_terminate
+ *   call|emit|dig|hist|bins <count> <sampler> <args>... [force=<pos>:<hex>] [edges=<vec>]
+ *        call: outputs dropped; emit: all outputs as bit patterns; dig: FNV-1a digest
+ *        and the first 8 outputs; hist: value:count table (integer samplers); bins: counts
+ *        of the outputs between the increasing edges of <vec> (count[i] = #{edges[i-1] <= x <
+ *        edges[i]}), number of NaNs, min, max, sum and sum of squares (long double)
+ *        force=: raw draw number <pos> (0-based) of EVERY call of this op is replaced by
+ *        the given value; all other draws stay natural (boundary probing through hook 2:
+ *        one particular 64-bit output at one position is reachable, a chosen run of
+ *        several outputs need not be)
+ *
+ * Trace lines:
+ *   B <seg> <op>                          about to run op (flushed; names the op a crash hit)
+ *   o|d|h <seg> <round> <op> <sampler> calls=<n> draws=<n> max=<n> one=<n> : payload
+ *   X <seg> <round> <op> <sampler> call=<k> draws=<n>    draw budget exceeded, case abandoned
+ *   I hook=<0|1>
+ */
+#include <errno.h>
+#include <inttypes.h>
+#include <math.h>
+#include <pthread.h>
+#include <setjmp.h>
+#include <stdlib.h>
+#include <string.h>
+#include <xmmintrin.h>
+
+#include "cmb_random.h"
+
 #include "cimx.h"
-int mode_random(char *text, FILE *trace) { (void)text; fprintf(trace, "F mode random not implemented\n"); return CIMX_PARSE_ERROR; }
+
+/* hook 2 (src/cmb_random.c under CIMBA_VERIF); weak so that a tree without it links */
+extern void (*cmi_verif_draw_hook)(uint64_t *draw) __attribute__((weak));
+
+#define MAXTOK 700
+#define MAXVEC 64
+#define MAXOPS 4096
+#define MAXSEG 256
+
+enum { OUT_D = 'd', OUT_I = 'i', OUT_U = 'u' };
+
+enum sid {
+    S_SFC64, S_CURSEED, S_RANDOM, S_UNIFORM, S_TRIANGULAR, S_STD_NORMAL, S_NORMAL, S_LOGNORMAL,
+    S_LOGISTIC, S_CAUCHY, S_STD_EXPONENTIAL, S_EXPONENTIAL, S_ERLANG, S_HYPOEXPONENTIAL,
+    S_HYPEREXPONENTIAL, S_STD_GAMMA, S_GAMMA, S_STD_BETA, S_BETA, S_PERT_MOD, S_PERT, S_WEIBULL,
+    S_PARETO, S_CHISQUARED, S_F_DIST, S_STD_T_DIST, S_T_DIST, S_RAYLEIGH, S_FLIP, S_BERNOULLI,
+    S_GEOMETRIC, S_BINOMIAL, S_NEGATIVE_BINOMIAL, S_PASCAL, S_POISSON, S_DICE, S_LOADED_DICE,
+    S_ALIAS_SAMPLE, S_COUNT
+};
+
+static const struct { const char *name; const char *sig; char out; } samplers[S_COUNT] = {
+    [S_SFC64] = { "sfc64", "", OUT_U },
+    [S_CURSEED] = { "curseed", "", OUT_U },
+    [S_RANDOM] = { "random", "", OUT_D },
+    [S_UNIFORM] = { "uniform", "dd", OUT_D },
+    [S_TRIANGULAR] = { "triangular", "ddd", OUT_D },
+    [S_STD_NORMAL] = { "std_normal", "", OUT_D },
+    [S_NORMAL] = { "normal", "dd", OUT_D },
+    [S_LOGNORMAL] = { "lognormal", "dd", OUT_D },
+    [S_LOGISTIC] = { "logistic", "dd", OUT_D },
+    [S_CAUCHY] = { "cauchy", "dd", OUT_D },
+    [S_STD_EXPONENTIAL] = { "std_exponential", "", OUT_D },
+    [S_EXPONENTIAL] = { "exponential", "d", OUT_D },
+    [S_ERLANG] = { "erlang", "ud", OUT_D },
+    [S_HYPOEXPONENTIAL] = { "hypoexponential", "v", OUT_D },
+    [S_HYPEREXPONENTIAL] = { "hyperexponential", "vv", OUT_D },
+    [S_STD_GAMMA] = { "std_gamma", "d", OUT_D },
+    [S_GAMMA] = { "gamma", "dd", OUT_D },
+    [S_STD_BETA] = { "std_beta", "dd", OUT_D },
+    [S_BETA] = { "beta", "dddd", OUT_D },
+    [S_PERT_MOD] = { "PERT_mod", "dddd", OUT_D },
+    [S_PERT] = { "PERT", "ddd", OUT_D },
+    [S_WEIBULL] = { "weibull", "dd", OUT_D },
+    [S_PARETO] = { "pareto", "dd", OUT_D },
+    [S_CHISQUARED] = { "chisquared", "d", OUT_D },
+    [S_F_DIST] = { "F_dist", "dd", OUT_D },
+    [S_STD_T_DIST] = { "std_t_dist", "d", OUT_D },
+    [S_T_DIST] = { "t_dist", "ddd", OUT_D },
+    [S_RAYLEIGH] = { "rayleigh", "d", OUT_D },
+    [S_FLIP] = { "flip", "", OUT_I },
+    [S_BERNOULLI] = { "bernoulli", "d", OUT_I },
+    [S_GEOMETRIC] = { "geometric", "d", OUT_I },
+    [S_BINOMIAL] = { "binomial", "ud", OUT_I },
+    [S_NEGATIVE_BINOMIAL] = { "negative_binomial", "ud", OUT_I },
+    [S_PASCAL] = { "pascal", "ud", OUT_I },
+    [S_POISSON] = { "poisson", "d", OUT_I },
+    [S_DICE] = { "dice", "ll", OUT_I },
+    [S_LOADED_DICE] = { "loaded_dice", "v", OUT_I },
+    [S_ALIAS_SAMPLE] = { "alias_sample", "a", OUT_I },
+};
+
+struct vec { char name[24]; unsigned n; double *x; struct cmb_random_alias *alias; };
+
+enum { OP_SEED, OP_TERMINATE, OP_CALL };
+enum { M_CALL, M_EMIT, M_DIG, M_HIST, M_BINS };
+
+struct op {
+    int kind, mode, sampler;
+    uint64_t count, seed;
+    double d[4];
+    uint64_t u[2];
+    long l[2];
+    int v[2];
+    int force_pos;          /* -1: none */
+    uint64_t force_val;
+    int edges;              /* M_BINS: index of the vector of bin edges */
+};
+
+enum { P_MAIN, P_FRESH, P_REUSE };
+
+struct segment { int plan, group, rounds; int first, nops; };
+
+struct out { char *p; size_t n, cap; };
+
+static struct vec vecs[MAXVEC];
+static int nvec;
+static struct op ops[MAXOPS];
+static int nops;
+static struct segment segs[MAXSEG];
+static int nseg;
+static int fp_trap, alias_trap;
+static uint64_t draw_budget = 1000000u;
+static FILE *g_trace;
+static pthread_mutex_t trace_mx = PTHREAD_MUTEX_INITIALIZER;
+static volatile int abandoned;
+
+/* per-thread hook state */
+static _Thread_local uint64_t t_draws;
+static _Thread_local int t_force_pos = -1;
+static _Thread_local uint64_t t_force_val;
+static _Thread_local jmp_buf *t_jmp;
+
+static void draw_hook(uint64_t *draw)
+{
+    const uint64_t k = t_draws++;
+    if ((int64_t)k == t_force_pos) {
+        *draw = t_force_val;
+    }
+    if (t_draws > draw_budget && t_jmp != NULL) {
+        longjmp(*t_jmp, 1);
+    }
+}
+
+static void out_add(struct out *b, const char *s, const size_t n)
+{
+    if (b->n + n + 1 > b->cap) {
+        while (b->n + n + 1 > b->cap) b->cap = b->cap ? b->cap * 2 : 4096;
+        b->p = realloc(b->p, b->cap);
+        if (b->p == NULL) { fprintf(stderr, "m_random: out of memory\n"); _exit(12); }
+    }
+    memcpy(b->p + b->n, s, n);
+    b->n += n;
+    b->p[b->n] = '\0';
+}
+
+static void out_printf(struct out *b, const char *fmt, ...) __attribute__((format(printf, 2, 3)));
+#include <stdarg.h>
+static void out_printf(struct out *b, const char *fmt, ...)
+{
+    char tmp[512];
+    va_list ap;
+    va_start(ap, fmt);
+    const int n = vsnprintf(tmp, sizeof tmp, fmt, ap);
+    va_end(ap);
+    out_add(b, tmp, (size_t)(n < (int)sizeof tmp ? n : (int)sizeof tmp - 1));
+}
+
+static void out_hex64(struct out *b, const uint64_t v)
+{
+    static const char hx[] = "0123456789abcdef";
+    char t[16];
+    for (int i = 0; i < 16; i++) {
+        t[i] = hx[(v >> (60 - 4 * i)) & 0xf];
+    }
+    out_add(b, t, 16);
+}
+
+static inline uint64_t dbits(const double x)
+{
+    uint64_t u;
+    memcpy(&u, &x, sizeof u);
+    return u;
+}
+
+static uint64_t do_call(const struct op *o)
+{
+    const double *d = o->d;
+    switch (o->sampler) {
+    case S_SFC64: return cmb_random_sfc64();
+    case S_CURSEED: return cmb_random_curseed();
+    case S_RANDOM: return dbits(cmb_random());
+    case S_UNIFORM: return dbits(cmb_random_uniform(d[0], d[1]));
+    case S_TRIANGULAR: return dbits(cmb_random_triangular(d[0], d[1], d[2]));
+    case S_STD_NORMAL: return dbits(cmb_random_std_normal());
+    case S_NORMAL: return dbits(cmb_random_normal(d[0], d[1]));
+    case S_LOGNORMAL: return dbits(cmb_random_lognormal(d[0], d[1]));
+    case S_LOGISTIC: return dbits(cmb_random_logistic(d[0], d[1]));
+    case S_CAUCHY: return dbits(cmb_random_cauchy(d[0], d[1]));
+    case S_STD_EXPONENTIAL: return dbits(cmb_random_std_exponential());
+    case S_EXPONENTIAL: return dbits(cmb_random_exponential(d[0]));
+    case S_ERLANG: return dbits(cmb_random_erlang((unsigned)o->u[0], d[0]));
+    case S_HYPOEXPONENTIAL:
+        return dbits(cmb_random_hypoexponential(vecs[o->v[0]].n, vecs[o->v[0]].x));
+    case S_HYPEREXPONENTIAL:
+        return dbits(cmb_random_hyperexponential(vecs[o->v[0]].n, vecs[o->v[0]].x, vecs[o->v[1]].x));
+    case S_STD_GAMMA: return dbits(cmb_random_std_gamma(d[0]));
+    case S_GAMMA: return dbits(cmb_random_gamma(d[0], d[1]));
+    case S_STD_BETA: return dbits(cmb_random_std_beta(d[0], d[1]));
+    case S_BETA: return dbits(cmb_random_beta(d[0], d[1], d[2], d[3]));
+    case S_PERT_MOD: return dbits(cmb_random_PERT_mod(d[0], d[1], d[2], d[3]));
+    case S_PERT: return dbits(cmb_random_PERT(d[0], d[1], d[2]));
+    case S_WEIBULL: return dbits(cmb_random_weibull(d[0], d[1]));
+    case S_PARETO: return dbits(cmb_random_pareto(d[0], d[1]));
+    case S_CHISQUARED: return dbits(cmb_random_chisquared(d[0]));
+    case S_F_DIST: return dbits(cmb_random_F_dist(d[0], d[1]));
+    case S_STD_T_DIST: return dbits(cmb_random_std_t_dist(d[0]));
+    case S_T_DIST: return dbits(cmb_random_t_dist(d[0], d[1], d[2]));
+    case S_RAYLEIGH: return dbits(cmb_random_rayleigh(d[0]));
+    case S_FLIP: return (uint64_t)(int64_t)cmb_random_flip();
+    case S_BERNOULLI: return (uint64_t)cmb_random_bernoulli(d[0]);
+    case S_GEOMETRIC: return (uint64_t)cmb_random_geometric(d[0]);
+    case S_BINOMIAL: return (uint64_t)cmb_random_binomial((unsigned)o->u[0], d[0]);
+    case S_NEGATIVE_BINOMIAL: return (uint64_t)cmb_random_negative_binomial((unsigned)o->u[0], d[0]);
+    case S_PASCAL: return (uint64_t)cmb_random_pascal((unsigned)o->u[0], d[0]);
+    case S_POISSON: return (uint64_t)cmb_random_poisson(d[0]);
+    case S_DICE: return (uint64_t)(int64_t)cmb_random_dice(o->l[0], o->l[1]);
+    case S_LOADED_DICE:
+        return (uint64_t)cmb_random_loaded_dice(vecs[o->v[0]].n, vecs[o->v[0]].x);
+    case S_ALIAS_SAMPLE: return (uint64_t)cmb_random_alias_sample(vecs[o->v[0]].alias);
+    default: break;
+    }
+    return 0;
+}
+
+/* value:count table for integer samplers */
+#define HDIRECT 4096
+#define HOVER 4096
+struct hist {
+    uint64_t direct[HDIRECT];
+    int64_t okey[HOVER];
+    uint64_t ocnt[HOVER];
+    unsigned nover;
+    uint64_t lost;
+};
+
+static void hist_add(struct hist *h, const int64_t v)
+{
+    if (v >= 0 && v < HDIRECT) {
+        h->direct[v]++;
+        return;
+    }
+    for (unsigned i = 0; i < h->nover; i++) {
+        if (h->okey[i] == v) { h->ocnt[i]++; return; }
+    }
+    if (h->nover < HOVER) {
+        h->okey[h->nover] = v;
+        h->ocnt[h->nover++] = 1;
+    }
+    else {
+        h->lost++;
+    }
+}
+
+static void mark(const int seg, const int opi)
+{
+    pthread_mutex_lock(&trace_mx);
+    fprintf(g_trace, "B %d %d\n", seg, opi);
+    fflush(g_trace);
+    pthread_mutex_unlock(&trace_mx);
+}
+
+/* Run the ops of one segment in the calling thread, appending to b */
+static void run_segment(const int si, const int round, struct out *b)
+{
+    const struct segment *sg = &segs[si];
+    _mm_setcsr(fp_trap ? 0x1d00u : 0x1f80u);
+    for (int k = 0; k < sg->nops && !abandoned; k++) {
+        const int opi = sg->first + k;
+        const struct op *o = &ops[opi];
+        if (round == 0) {
+            mark(si, opi);
+        }
+        if (o->kind == OP_SEED) {
+            cmb_random_initialize(o->seed);
+            continue;
+        }
+        if (o->kind == OP_TERMINATE) {
+            cmb_random_terminate();
+            continue;
+        }
+        const char tag = (o->mode == M_EMIT) ? 'o' : (o->mode == M_DIG) ? 'd' : (o->mode == M_HIST) ? 'h'
+                       : (o->mode == M_BINS) ? 'b' : 'c';
+        uint64_t *bins = NULL, nnan = 0;
+        const double *edges = NULL;
+        unsigned nedges = 0;
+        double vmin = INFINITY, vmax = -INFINITY;
+        long double sum = 0.0L, sumsq = 0.0L;
+        if (o->mode == M_BINS) {
+            edges = vecs[o->edges].x;
+            nedges = vecs[o->edges].n;
+            bins = calloc(nedges + 1u, sizeof *bins);
+        }
+        uint64_t total = 0, maxd = 0, one = 0, dig = 0xcbf29ce484222325ull;
+        uint64_t first[8];
+        struct hist *h = NULL;
+        struct out vals = { 0 };
+        if (o->mode == M_HIST) {
+            h = calloc(1, sizeof *h);
+        }
+        jmp_buf jb;
+        volatile uint64_t done = 0;
+        t_force_pos = o->force_pos;
+        t_force_val = o->force_val;
+        if (setjmp(jb) != 0) {
+            /* draw budget exceeded inside call number `done` */
+            t_jmp = NULL;
+            abandoned = 1;
+            out_printf(b, "X %d %d %d %s call=%" PRIu64 " draws=%" PRIu64 "\n", si, round, opi,
+                       samplers[o->sampler].name, (uint64_t)done, t_draws);
+            t_force_pos = -1;  /* h / vals are leaked on purpose: indeterminate after longjmp */
+            return;
+        }
+        t_jmp = &jb;
+        for (uint64_t c = 0; c < o->count; c++) {
+            done = c;
+            t_draws = 0;
+            const uint64_t r = do_call(o);
+            const uint64_t nd = t_draws;
+            total += nd;
+            if (nd > maxd) maxd = nd;
+            if (nd == 1) one++;
+            if (o->mode == M_EMIT) {
+                out_hex64(&vals, r);
+            }
+            else if (o->mode == M_DIG) {
+                if (c < 8) first[c] = r;
+                for (int i = 0; i < 8; i++) {
+                    dig ^= (r >> (8 * i)) & 0xff;
+                    dig *= 0x100000001b3ull;
+                }
+            }
+            else if (o->mode == M_HIST) {
+                hist_add(h, (int64_t)r);
+            }
+            else if (o->mode == M_BINS) {
+                double x;
+                memcpy(&x, &r, sizeof x);
+                if (x != x) {
+                    nnan++;
+                }
+                else {
+                    /* number of edges <= x */
+                    unsigned lo = 0, hi = nedges;
+                    while (lo < hi) {
+                        const unsigned mid = (lo + hi) / 2u;
+                        if (edges[mid] <= x) lo = mid + 1u; else hi = mid;
+                    }
+                    bins[lo]++;
+                    if (x < vmin) vmin = x;
+                    if (x > vmax) vmax = x;
+                    sum += x;
+                    sumsq += (long double)x * x;
+                }
+            }
+        }
+        t_jmp = NULL;
+        t_force_pos = -1;
+        if (o->mode == M_CALL) {
+            continue;
+        }
+        out_printf(b, "%c %d %d %d %s calls=%" PRIu64 " draws=%" PRIu64 " max=%" PRIu64 " one=%" PRIu64 " : ",
+                   tag, si, round, opi, samplers[o->sampler].name, o->count, total, maxd, one);
+        if (o->mode == M_EMIT) {
+            if (vals.n > 0) out_add(b, vals.p, vals.n);
+            free(vals.p);
+        }
+        else if (o->mode == M_DIG) {
+            out_hex64(b, dig);
+            for (uint64_t c = 0; c < o->count && c < 8; c++) {
+                out_add(b, " ", 1);
+                out_hex64(b, first[c]);
+            }
+        }
+        else if (o->mode == M_BINS) {
+            out_printf(b, "nan=%" PRIu64 " min=%a max=%a sum=%La sumsq=%La counts=", nnan, vmin, vmax, sum, sumsq);
+            for (unsigned i = 0; i <= nedges; i++) {
+                out_printf(b, "%s%" PRIu64, i ? "," : "", bins[i]);
+            }
+            free(bins);
+        }
+        else {
+            for (int v = 0; v < HDIRECT; v++) {
+                if (h->direct[v]) out_printf(b, "%d:%" PRIu64 " ", v, h->direct[v]);
+            }
+            for (unsigned i = 0; i < h->nover; i++) {
+                out_printf(b, "%" PRId64 ":%" PRIu64 " ", h->okey[i], h->ocnt[i]);
+            }
+            if (h->lost) out_printf(b, "lost:%" PRIu64 " ", h->lost);
+            free(h);
+        }
+        out_add(b, "\n", 1);
+    }
+}
+
+static void flush_out(struct out *b)
+{
+    pthread_mutex_lock(&trace_mx);
+    if (b->n > 0) fwrite(b->p, 1, b->n, g_trace);
+    fflush(g_trace);
+    pthread_mutex_unlock(&trace_mx);
+    free(b->p);
+    b->p = NULL;
+    b->n = b->cap = 0;
+}
+
+struct job { int seg, round; struct out out; pthread_barrier_t *bar; };
+
+static void *job_thread(void *arg)
+{
+    struct job *j = arg;
+    if (j->bar != NULL) {
+        pthread_barrier_wait(j->bar);
+    }
+    run_segment(j->seg, j->round, &j->out);
+    return NULL;
+}
+
+/* the persistent worker ("a thread that ran other probes first") */
+static pthread_t worker;
+static int worker_started;
+static pthread_mutex_t wmx = PTHREAD_MUTEX_INITIALIZER;
+static pthread_cond_t wcv = PTHREAD_COND_INITIALIZER;
+static struct job *wjob;
+static int wdone, wquit;
+
+static void *worker_main(void *arg)
+{
+    (void)arg;
+    pthread_mutex_lock(&wmx);
+    for (;;) {
+        while (wjob == NULL && !wquit) pthread_cond_wait(&wcv, &wmx);
+        if (wquit) break;
+        struct job *j = wjob;
+        pthread_mutex_unlock(&wmx);
+        run_segment(j->seg, j->round, &j->out);
+        pthread_mutex_lock(&wmx);
+        wjob = NULL;
+        wdone = 1;
+        pthread_cond_broadcast(&wcv);
+    }
+    pthread_mutex_unlock(&wmx);
+    return NULL;
+}
+
+static void run_on_worker(struct job *j)
+{
+    if (!worker_started) {
+        pthread_create(&worker, NULL, worker_main, NULL);
+        worker_started = 1;
+    }
+    pthread_mutex_lock(&wmx);
+    wjob = j;
+    wdone = 0;
+    pthread_cond_broadcast(&wcv);
+    while (!wdone) pthread_cond_wait(&wcv, &wmx);
+    pthread_mutex_unlock(&wmx);
+}
+
+static int find_vec(const char *name)
+{
+    for (int i = 0; i < nvec; i++) {
+        if (strcmp(vecs[i].name, name) == 0) return i;
+    }
+    return -1;
+}
+
+static int find_sampler(const char *name)
+{
+    for (int i = 0; i < S_COUNT; i++) {
+        if (strcmp(samplers[i].name, name) == 0) return i;
+    }
+    return -1;
+}
+
+#define PARSE_FAIL(...) do { fprintf(trace, "F parse: " __VA_ARGS__); fprintf(trace, "\n"); return CIMX_PARSE_ERROR; } while (0)
+
+int mode_random(char *text, FILE *trace)
+{
+    g_trace = trace;
+    char *cursor = text;
+    char *line;
+    static char *tok[MAXTOK];
+    int group = 0, in_group = 0, group_rounds = 1;
+    const int have_hook = (&cmi_verif_draw_hook != NULL);
+
+    while ((line = cimx_next_line(&cursor)) != NULL) {
+        const int nt = cimx_split(line, tok, MAXTOK);
+        if (nt == 0) continue;
+        if (strcmp(tok[0], "fp") == 0 && nt == 2) {
+            fp_trap = (strcmp(tok[1], "trap") == 0);
+        }
+        else if (strcmp(tok[0], "aliasfp") == 0 && nt == 2) {
+            alias_trap = (strcmp(tok[1], "trap") == 0);
+        }
+        else if (strcmp(tok[0], "budget") == 0 && nt == 2) {
+            draw_budget = cimx_u64(tok[1]);
+        }
+        else if (strcmp(tok[0], "variant") == 0 || strcmp(tok[0], "check") == 0) {
+            /* for the Python side */
+        }
+        else if (strcmp(tok[0], "vec") == 0 && nt >= 3) {
+            if (nvec >= MAXVEC) PARSE_FAIL("too many vectors");
+            struct vec *v = &vecs[nvec++];
+            snprintf(v->name, sizeof v->name, "%s", tok[1]);
+            v->n = (unsigned)(nt - 2);
+            v->x = malloc(v->n * sizeof(double));
+            for (unsigned i = 0; i < v->n; i++) v->x[i] = cimx_dbl(tok[2 + i]);
+        }
+        else if (strcmp(tok[0], "alias") == 0 && nt == 3) {
+            const int src = find_vec(tok[2]);
+            if (src < 0 || nvec >= MAXVEC) PARSE_FAIL("alias: unknown vector %s", tok[2]);
+            fprintf(trace, "B -1 -1 alias_create\n");
+            fflush(trace);
+            struct vec *v = &vecs[nvec++];
+            snprintf(v->name, sizeof v->name, "%s", tok[1]);
+            v->n = vecs[src].n;
+            v->x = NULL;
+            _mm_setcsr(alias_trap ? 0x1d00u : 0x1f80u);
+            v->alias = cmb_random_alias_create(vecs[src].n, vecs[src].x);
+            _mm_setcsr(0x1f80u);
+        }
+        else if (strcmp(tok[0], "segment") == 0 && nt == 2) {
+            if (nseg >= MAXSEG) PARSE_FAIL("too many segments");
+            struct segment *sg = &segs[nseg++];
+            sg->plan = strcmp(tok[1], "main") == 0 ? P_MAIN : strcmp(tok[1], "fresh") == 0 ? P_FRESH
+                     : strcmp(tok[1], "reuse") == 0 ? P_REUSE : -1;
+            if (sg->plan < 0) PARSE_FAIL("bad plan %s", tok[1]);
+            sg->group = in_group ? group : 0;
+            sg->rounds = in_group ? group_rounds : 1;
+            sg->first = nops;
+            sg->nops = 0;
+        }
+        else if (strcmp(tok[0], "conc-begin") == 0 && nt == 2) {
+            in_group = 1;
+            group++;
+            group_rounds = (int)cimx_i64(tok[1]);
+            if (group_rounds < 1 || group_rounds > 1000) PARSE_FAIL("bad rounds");
+        }
+        else if (strcmp(tok[0], "conc-end") == 0) {
+            in_group = 0;
+        }
+        else if (strcmp(tok[0], "seed") == 0 && nt == 2) {
+            if (nseg == 0 || nops >= MAXOPS) PARSE_FAIL("seed outside segment");
+            struct op *o = &ops[nops++];
+            o->kind = OP_SEED;
+            o->seed = cimx_u64(tok[1]);
+            segs[nseg - 1].nops++;
+        }
+        else if (strcmp(tok[0], "terminate") == 0) {
+            if (nseg == 0 || nops >= MAXOPS) PARSE_FAIL("terminate outside segment");
+            ops[nops++].kind = OP_TERMINATE;
+            segs[nseg - 1].nops++;
+        }
+        else if ((strcmp(tok[0], "call") == 0 || strcmp(tok[0], "emit") == 0
+                  || strcmp(tok[0], "dig") == 0 || strcmp(tok[0], "hist") == 0
+                  || strcmp(tok[0], "bins") == 0) && nt >= 3) {
+            if (nseg == 0 || nops >= MAXOPS) PARSE_FAIL("op outside segment");
+            struct op *o = &ops[nops++];
+            o->kind = OP_CALL;
+            o->mode = tok[0][0] == 'c' ? M_CALL : tok[0][0] == 'e' ? M_EMIT : tok[0][0] == 'd' ? M_DIG
+                    : tok[0][0] == 'b' ? M_BINS : M_HIST;
+            o->count = cimx_u64(tok[1]);
+            o->sampler = find_sampler(tok[2]);
+            if (o->sampler < 0) PARSE_FAIL("unknown sampler %s", tok[2]);
+            const char *sig = samplers[o->sampler].sig;
+            int t = 3, nd = 0, nu = 0, nl = 0, nv = 0;
+            for (const char *s = sig; *s; s++, t++) {
+                if (t >= nt) PARSE_FAIL("%s: missing argument", tok[2]);
+                switch (*s) {
+                case 'd': o->d[nd++] = cimx_dbl(tok[t]); break;
+                case 'u': o->u[nu++] = cimx_u64(tok[t]); break;
+                case 'l': o->l[nl++] = (long)cimx_i64(tok[t]); break;
+                case 'v':
+                case 'a':
+                    o->v[nv] = find_vec(tok[t]);
+                    if (o->v[nv] < 0) PARSE_FAIL("%s: unknown vector %s", tok[2], tok[t]);
+                    if ((*s == 'a') != (vecs[o->v[nv]].alias != NULL)) PARSE_FAIL("%s: wrong kind %s", tok[2], tok[t]);
+                    nv++;
+                    break;
+                default: break;
+                }
+            }
+            if (o->sampler == S_HYPEREXPONENTIAL && vecs[o->v[0]].n != vecs[o->v[1]].n) {
+                PARSE_FAIL("hyperexponential: vector lengths differ");
+            }
+            if (o->mode == M_HIST && samplers[o->sampler].out != OUT_I) PARSE_FAIL("hist on non-integer sampler");
+            o->force_pos = -1;
+            if (t < nt && strncmp(tok[t], "force=", 6) == 0) {
+                char *s = tok[t] + 6;
+                o->force_pos = (int)strtol(s, &s, 10);
+                if (*s != ':') PARSE_FAIL("force=<pos>:<hex>");
+                o->force_val = strtoull(s + 1, NULL, 16);
+                t++;
+            }
+            if (t < nt && strncmp(tok[t], "edges=", 6) == 0) {
+                o->edges = find_vec(tok[t] + 6);
+                if (o->edges < 0 || vecs[o->edges].x == NULL) PARSE_FAIL("unknown edge vector %s", tok[t]);
+                t++;
+            }
+            else if (o->mode == M_BINS) {
+                PARSE_FAIL("bins needs edges=<vec>");
+            }
+            if (o->mode == M_BINS && samplers[o->sampler].out != OUT_D) PARSE_FAIL("bins on non-double sampler");
+            if (t != nt) PARSE_FAIL("%s: trailing arguments", tok[2]);
+            segs[nseg - 1].nops++;
+        }
+        else {
+            PARSE_FAIL("unknown directive %s", tok[0]);
+        }
+    }
+
+    fprintf(trace, "I hook=%d\n", have_hook);
+    fflush(trace);
+    if (have_hook) {
+        cmi_verif_draw_hook = draw_hook;
+    }
+
+    int si = 0;
+    while (si < nseg && !abandoned) {
+        if (segs[si].group == 0) {
+            struct job j = { si, 0, { 0 }, NULL };
+            if (segs[si].plan == P_MAIN) {
+                run_segment(si, 0, &j.out);
+            }
+            else if (segs[si].plan == P_FRESH) {
+                pthread_t th;
+                if (pthread_create(&th, NULL, job_thread, &j) != 0) { perror("pthread_create"); return 12; }
+                pthread_join(th, NULL);
+            }
+            else {
+                run_on_worker(&j);
+            }
+            flush_out(&j.out);
+            si++;
+            continue;
+        }
+        /* a concurrent group: segments si..sj-1, each in a fresh thread, all released together */
+        int sj = si;
+        while (sj < nseg && segs[sj].group == segs[si].group) sj++;
+        const int nth = sj - si;
+        for (int round = 0; round < segs[si].rounds && !abandoned; round++) {
+            pthread_barrier_t bar;
+            pthread_barrier_init(&bar, NULL, (unsigned)nth);
+            struct job *jobs = calloc((size_t)nth, sizeof *jobs);
+            pthread_t *th = calloc((size_t)nth, sizeof *th);
+            for (int k = 0; k < nth; k++) {
+                jobs[k].seg = si + k;
+                jobs[k].round = round;
+                jobs[k].bar = &bar;
+                if (pthread_create(&th[k], NULL, job_thread, &jobs[k]) != 0) { perror("pthread_create"); return 12; }
+            }
+            for (int k = 0; k < nth; k++) {
+                pthread_join(th[k], NULL);
+            }
+            for (int k = 0; k < nth; k++) {
+                flush_out(&jobs[k].out);
+            }
+            pthread_barrier_destroy(&bar);
+            free(jobs);
+            free(th);
+        }
+        si = sj;
+    }
+    if (worker_started) {
+        pthread_mutex_lock(&wmx);
+        wquit = 1;
+        pthread_cond_broadcast(&wcv);
+        pthread_mutex_unlock(&wmx);
+        pthread_join(worker, NULL);
+    }
+    if (have_hook) {
+        cmi_verif_draw_hook = NULL;
+    }
+    fprintf(trace, "Z done abandoned=%d\n", abandoned);
+    return CIMX_OK;
+}
